@@ -76,6 +76,12 @@ THEOREMS = [
     P + "C18_captures_exact",
     P + "C18_captures_any_root",
     P + "C18_attrs_bodies",
+    # follow-up round
+    P + "C18_clone_succeeds",
+    P + "C18_extract_succeeds_iff",
+    P + "C18_extract_owned",
+    P + "C18_clone_stage_C13",
+    P + "C18_extract_clone_C13",
 ]
 ASSUMPTIONS = [
     "Python sets are modelled as lists (iteration order of a set is hash order in Python, list order in the "
@@ -545,6 +551,10 @@ def error_kind(e: BaseException) -> str:
         c = e
         while c.__cause__ is not None:
             c = c.__cause__
+        if isinstance(c, ValueError) and any(k in str(c) for k in (
+                "is already owned by a different graph", "is already an output of a different graph",
+                "is already an initializer of a different graph", "is produced by a node and cannot be")):
+            return "cloneOwned"  # the Graph(...) constructor of the clone refused a value (ownership)
         return "cloneOutput" if isinstance(c, KeyError) else "cloneOuter" if isinstance(c, ValueError) else "clone?" + type(c).__name__
     if isinstance(e, ValueError):
         for key, kind in (("does not belong", "notOwned"), ("not found in the graph", "nameNotFound"),
@@ -680,7 +690,7 @@ def check_model(part, spec: dict, cuts: list, tag: str):
         part.case(
             [tag, spec["vals"], spec["root"], spec["target"], ins, outs],
             nontrivial=(len(ires.get("nodes", [])) >= 1) if ires["r"] == "ok"
-            else ires.get("kind") in ("unbounded", "sortKey", "cloneOuter", "cloneOutput"),
+            else ires.get("kind") in ("unbounded", "sortKey", "cloneOuter", "cloneOutput", "cloneOwned"),
             sample={"target": spec["target"]["kind"], "ins": ins, "outs": outs, "impl": ires},
             stream=tag,
             kind=objs["kind"],
@@ -698,6 +708,24 @@ def check_model(part, spec: dict, cuts: list, tag: str):
             part.count("hyp_extract_eval:" + ("all" if all(h.values()) else "missing:" + "+".join(k for k, v in h.items() if not v)))
             h2 = {k: v for k, v in h.items() if k != "names"}  # C18_extract_eval_strong needs no distinct names
             part.count("hyp_extract_eval_strong:" + ("all" if all(h2.values()) else "missing:" + "+".join(k for k, v in h2.items() if not v)))
+        iff = mres.get("iff")
+        if isinstance(iff, dict):
+            # instance of C18_extract_succeeds_iff (on `extract`, the pipeline without the constructor's ownership
+            # checks) and of C18_extract_owned, against the model AND against the real outcome
+            part.count("hyp_succeeds_iff:" + ("all" if iff["hyp"] else "missing"))
+            rhs = bool(iff["covered"] and iff["needed"])
+            if iff["hyp"]:
+                part.count("succeeds_iff:" + ("returns" if rhs else "raises"))
+                if iff["plain"] != rhs:
+                    part.disagree("C18_extract_succeeds_iff fails on the model", case, mres, iff)
+                owned = mres["r"] == "raised" and mres.get("kind", "").endswith("cloneOwned")
+                if not owned and (ires["r"] == "ok") != rhs:
+                    part.disagree("C18_extract_succeeds_iff: the real extract returns / raises against the covered-and-needed verdict", case, iff, ires)
+            if mres["r"] == "ok" and not iff["plain"]:
+                part.disagree("C18_extract_owned fails on the model (extractO returned, extract raised)", case, mres, iff)
+        if mres["r"] == "ok" and "nr" in mres:
+            # decidable hypothesis of C18_clone_stage_C13 (no node output is re-bound; false on the D153 shapes)
+            part.count("hyp_clone_stage_C13:" + ("all" if mres["nr"] else "missing:rebinds"))
         if mres["r"] == "ok":
             # instance of C18_order_source evaluated by the driver: must hold on every successful cut
             if mres.get("orderOK") is not True:
@@ -714,9 +742,42 @@ def check_model(part, spec: dict, cuts: list, tag: str):
                 part.fail("extract:unknown-name-accepted", "a name not present in the graph was accepted", case)
             continue
         byobj = [objs["vals"][a] for a in ins + outs if not isinstance(a, str)]
-        if objs["kind"] != "view" and any(brute.def_graph.get(id(v)) != id(tgraph) for v in byobj):
-            if ires["r"] != "raised":
-                part.fail("extract:foreign-value-accepted", "a value of another graph was accepted", case)
+        if objs["kind"] != "view":
+            # D460: a value of an ENCLOSING graph that a node of the target graph reads directly is a legitimate
+            # boundary input (the same value given by name is accepted and gives the right region); any other
+            # value that the target graph does not define must be refused
+            direct = {id(x) for n in tnodes for x in n.inputs if x is not None}
+            byobj_in = [objs["vals"][a] for a in ins if not isinstance(a, str)]
+            byobj_out = [objs["vals"][a] for a in outs if not isinstance(a, str)]
+            captured_in = [v for v in byobj_in if brute.def_graph.get(id(v)) != id(tgraph) and id(v) in direct]
+            foreign = [v for v in byobj_in if brute.def_graph.get(id(v)) != id(tgraph) and id(v) not in direct]
+            foreign += [v for v in byobj_out if brute.def_graph.get(id(v)) != id(tgraph)]
+            if foreign:
+                if ires["r"] != "raised":
+                    part.fail("extract:foreign-value-accepted", "a value of another graph was accepted", case)
+                continue
+            if captured_in:
+                part.count("byobject_captured_input:" + (ires.get("kind", "?") if ires["r"] == "raised" else "ok"))
+                if ires["r"] == "raised" and ires.get("kind") == "notOwned":
+                    byname_ok = None
+                    if all(v.name for v in byobj_in + byobj_out):
+                        # the same cut with every value given by name
+                        _, alt = run_real(objs, [a if isinstance(a, str) else objs["vals"][a].name for a in ins],
+                                          [a if isinstance(a, str) else objs["vals"][a].name for a in outs])
+                        byname_ok = alt["r"] == "ok"
+                    part.fail(
+                        "extract:sub:byobject-captured-input-rejected",
+                        "a value of an enclosing graph that a node of the target graph reads directly was given BY OBJECT as "
+                        "boundary input and refused ('does not belong'), although it covers a required value"
+                        + (" and the same cut given by name returns the region" if byname_ok else ""),
+                        {**case, "impl": ires, "same_cut_by_name_returns": byname_ok},
+                    )
+                    continue
+        elif any(brute.def_graph.get(id(v)) != id(objs["root"]) for v in byobj):
+            # a boundary value of a view that is defined inside a nested graph: not a value of the region's scope;
+            # the clone's Graph constructor refuses it when a nested graph lists it (model: cloneGO / cloneOwned);
+            # correspondence only
+            part.count("view_boundary_value_from_nested_graph:" + (ires.get("kind", "?") if ires["r"] == "raised" else "ok"))
             continue
         if not outs_v:
             if ires["r"] != "raised":
@@ -1465,12 +1526,24 @@ def random_cut(rng: random.Random, spec: dict):
         outs = outs + ["no_such_name"]
     if rng.random() < 0.04:
         foreign = [i for i in range(len(spec["vals"])) if i not in allv]
-        if spec["target"]["kind"] == "view":
-            # a view does no ownership check; a boundary value defined inside a nested graph makes the
-            # *Graph constructor* of the clone fail (value owned twice): kernel behaviour, not modelled here
-            foreign = [i for i in foreign if i in own_values(spec["root"])]
+        # (a view does no ownership check: a boundary value defined inside a nested graph reaches the clone, whose
+        # Graph constructor refuses a value that two graphs list: cloneGO / Err.cloneOwned)
         if foreign:
             ins = ins + [rng.choice(foreign)]
+    if spec["target"]["kind"] == "view" and rng.random() < 0.12:
+        # boundary values BY OBJECT taken from the nested graphs (their inputs, initializers, outputs, node outputs)
+        nested = [v for g in list(walk_graphs(spec["root"]))[1:] for v in own_values(g) + list(g["outputs"])]
+        if nested:
+            if rng.random() < 0.7:
+                ins = ins + [rng.choice(nested)]
+            else:
+                outs = outs + [rng.choice(nested)]
+    if spec["target"]["kind"] == "sub" and rng.random() < 0.25:
+        # D460: a value of an enclosing graph read directly by a node of the target subgraph, given by object / name
+        outer = [v for v in allv if v not in own]
+        if outer:
+            v = rng.choice(outer)
+            ins = [a for a in ins if a != v and a != spec["vals"][v]["name"]] + [v if rng.random() < 0.6 else nm(v)]
     return ins, outs
 
 
@@ -1834,6 +1907,73 @@ def make_items(ctx: Ctx) -> list:
         spec = with_target(r, spec, ["graph", "function", "sub", "graph"][k % 4])
         items.append(("cuts", (spec, [random_cut(r, spec) for _ in range(8)], "deep")))
         items.append(("aux", (spec, r.random())))
+    # (G) ownership (follow-up round): views whose boundary contains, BY OBJECT, values that a nested graph lists
+    # (inputs / initializers / outputs of nested graphs) or defines (nested node outputs): the clone's Graph
+    # constructor refuses a clone that two graphs list (cloneGO / Err.cloneOwned)
+    for k in range(ctx.pick(60, 1200)):
+        r = random.Random(rng.random())
+        for _try in range(20):
+            spec = gen_structural(r, r.randrange(2, 7))
+            if spec_depth(spec["root"]) >= 1:
+                break
+        else:
+            continue
+        root = spec["root"]
+        spec = dict(spec)
+        spec["target"] = {"kind": "view", "shape": "all", "inputs": list(root["inputs"]), "outputs": list(root["outputs"]),
+                          "nodes": [n["n"] for n in root["nodes"]], "inits": list(root["inits"])}
+        subs = list(walk_graphs(root))[1:]
+        listed = [v for g in subs for v in list(g["inputs"]) + list(g["inits"]) + list(g["outputs"])]
+        defined = [v for g in subs for v in own_values(g)]
+        own = own_values(root)
+        base_in = [v for v in root["inputs"]] + [v for v in top_values(root) if v not in own][:2]
+        cuts = []
+        for _ in range(8):
+            outs = r.sample(own, k=min(len(own), r.randrange(1, 3))) if own else []
+            ins = list(base_in) if r.random() < 0.7 else r.sample(own, k=min(len(own), r.randrange(0, 4)))
+            pool = listed if (listed and r.random() < 0.7) else defined
+            if pool:
+                x = r.choice(pool)
+                if r.random() < 0.75:
+                    ins = ins + [x]
+                else:
+                    outs = outs + [x]
+            cuts.append((ins, outs))
+        items.append(("cuts", (spec, cuts, "ownership")))
+    # (H) D460: regions of a nested graph that reads values of enclosing graphs directly, the captured values given
+    # as boundary inputs by object and by name
+    for k in range(ctx.pick(60, 1200)):
+        r = random.Random(rng.random())
+        spec = None
+        for _try in range(30):
+            cand = gen_structural(r, r.randrange(2, 7)) if k % 2 else None
+            if cand is None:
+                try:
+                    cand = gen_evaluable(r, r.randrange(3, 9), max_depth=2)
+                except RuntimeError:
+                    continue
+            subs = [g for g in list(walk_graphs(cand["root"]))[1:]
+                    if any(v not in own_values(g) for v in top_values(g))]
+            if subs:
+                spec = dict(cand)
+                g = r.choice(subs)
+                spec["target"] = {"kind": "sub", "gid": g["g"]}
+                spec["evaluable"] = False
+                break
+        if spec is None:
+            continue
+        g = target_graphspec(spec)
+        own = own_values(g)
+        outer = [v for v in top_values(g) if v not in own]
+        cuts = []
+        for _ in range(6):
+            outs = r.sample(own, k=min(len(own), r.randrange(1, 3))) if own else []
+            ins = [v for v in g["inputs"]] if r.random() < 0.6 else r.sample(own, k=min(len(own), r.randrange(0, 3)))
+            cap = outer if r.random() < 0.7 else r.sample(outer, k=r.randrange(0, len(outer) + 1))
+            byname = r.random() < 0.4
+            ins = ins + [(spec["vals"][v]["name"] or v) if byname else v for v in cap]
+            cuts.append((ins, outs))
+        items.append(("cuts", (spec, cuts, "captured")))
     # (F) the counterexamples of the necessity theorems, on the real code
     for it in NECESSITY:
         items.append(("necessity", it))
